@@ -252,7 +252,10 @@ class C13(Prop):
             for _ in range(3 * n):
                 parse.append("X parse " + hx(self.rnd_label_text(rng, k)))
                 parse.append("X parse " + hx(self.rnd_label_text(rng, k) + b".org."))
-        for s in (b".", b"", b"..", b"a.", b".a", b"a..b", b"a.b.c", b"A.B.", b" ", b"a.b.", "é.".encode()):
+        for s in (b".", b"", b"..", b"a.", b".a", b"a..b", b"a.b.c", b"A.B.", b" ", b"a.b.", "é.".encode(),
+                  # white space is an ordinary octet of a label: never trimmed, never a separator
+                  b" a.b.", b"a .b.", b"a. b.", b"a.b .", b" .b.", b"\ta.b", b"a\n.b", b"a.b\r\n", b"\xc2\xa0a.b", b" a", b"a ",
+                  b"  ", b" " * 63 + b".a", b" " * 64 + b".a", b" " + b"a" * 63, b"a" * 63 + b" "):
             parse.append("X parse " + hx(s))
         # names around the 253..=257 wire-octet boundary
         for total in range(250, 260):
@@ -267,7 +270,7 @@ class C13(Prop):
                     left -= k + 1
                 parse.append("X parse " + hx(b".".join(labs) + (b"." if rng.random() < 0.5 else b"")))
         eq = []
-        pool = [b"a", b"A", b"abc", b"ABC", b"aBc", b"abd", "K".encode(), b"k", b"K", "İ".encode(), "i̇".encode(), b"i",
+        pool = [b" a", b"a ", b"\ta", b"a", b"A", b"abc", b"ABC", b"aBc", b"abd", "K".encode(), b"k", b"K", "İ".encode(), "i̇".encode(), b"i",
                 "é".encode(), "É".encode(), "ß".encode(), "ẞ".encode(), b"ss", b"@", b"`", b"[", b"{", b"a.b", b"a\x00"]
         for a in pool:
             for b in pool:
